@@ -38,6 +38,62 @@ def style(name, rnd):
              trailing=rnd.choice([True, False]), quote=0.4, parens=0.4, rnd=rnd)
 
 
+def lex_view(data, o):
+    """types and texts of a real lexeme stream; free text without the blanks / line ends around it"""
+    res = []
+    for t, b, e in o.get("lex") or []:
+        txt = data[b:e + 1] if e >= b else b""
+        if t == 5:
+            txt = txt.strip(b" \t\r\n")
+        res.append((t, txt))
+    return res
+
+
+def lexical_pairs(chk, tier):
+    """C05, lexical part: spec/LexPair.tla enumerates (input, rewritten input) pairs where the machine is
+    between directives / at the end of a directive line, checks the identity on the machine, and the
+    pairs are replayed on the real scanner."""
+    from common import b64, tlc, tlc_ok
+    thorough = tier == "thorough"
+    sd = seed()
+    plans = [(2, 1 if thorough else 4), (3, 12 if thorough else 300)]
+    total = 0
+    for maxtok, mod in plans:
+        r = tlc_ok(tlc("LexPair", "LexPair.cfg", consts={"MaxTokens": str(maxtok), "SampleMod": str(mod), "SamplePick": str(sd % mod)},
+                       timeout=3000), "LexPair")
+        chk.add_tlc(r)
+        spec_bad = [m for m in r.mbt if not m["same"]]
+        chk.extra["lexpair_machine_counterexamples_%d_tokens" % maxtok] = len(spec_bad)
+        cases, meta = [], {}
+        for n, m in enumerate(r.mbt):
+            base, var = bytes(m["base"]), bytes(m["variant"])
+            cases.append({"id": "b%d" % n, "b64": b64(base)})
+            cases.append({"id": "v%d" % n, "b64": b64(var)})
+            meta[n] = (m["kind"], base, var, m["same"])
+        obs = harness("lex", cases)
+        for n, (kind, base, var, same) in meta.items():
+            a, b = obs["b%d" % n], obs["v%d" % n]
+            total += 1
+            chk.evaluations += 1
+            chk.traces += 1
+            if n < 3000:
+                chk.nontrivial.add(("lex", base, var))
+            bad = None
+            if a.get("panic") or b.get("panic"):
+                continue          # crashes are C01's
+            if (a["err_idx"] >= 0) != (b["err_idx"] >= 0):
+                bad = "the scanner %s the original and %s the rewritten input" % (
+                    "rejects" if a["err_idx"] >= 0 else "reads", "rejects" if b["err_idx"] >= 0 else "reads")
+            elif a["err_idx"] < 0 and lex_view(base, a) != lex_view(var, b):
+                bad = "lexeme types/texts differ: %s vs %s" % (lex_view(base, a)[:6], lex_view(var, b)[:6])
+            if bad:
+                sig = {"rewrite": "lexical-" + kind, "base": "lex", "variant": "lex", "msg": ""}
+                chk.violation("rewriting (%s) of %r into %r: %s" % (kind, base, var, bad),
+                              {"kind": "lexpair", "rewrite": kind, "base": base.decode("latin1"), "variant": var.decode("latin1"),
+                               "machine_says_same": same, "signature": sig}, sig)
+    chk.extra["lexical_pairs_replayed"] = total
+
+
 def main(tier):
     chk = Check("C05", tier)
     rnd = random.Random(seed())
@@ -68,6 +124,7 @@ def main(tier):
                 nm, rel.describe(a), rel.describe(b), d or "", text[:1200]),
                 {"kind": "pair", "rewrite": nm, "doc": m["doc"], "base": base, "variant": text,
                  "observed_base": a, "observed_variant": b, "signature": sig}, sig)
+    lexical_pairs(chk, tier)
     if docs:
         chk.sample({"doc": docs[0]["doc"], "rewritings": REWRITES})
     chk.rule = ("pairs (canonical rendering, rewritten rendering) of TLC-generated valid API documents; rewritings: "
@@ -81,6 +138,14 @@ def main(tier):
 def replay(path):
     rp = json.load(open(path))["replay"]
     chk = Check("C05", "quick")
+    if rp["kind"] == "lexpair":
+        from common import b64
+        base, var = rp["base"].encode("latin1"), rp["variant"].encode("latin1")
+        o = harness("lex", [{"id": "a", "b64": b64(base)}, {"id": "b", "b64": b64(var)}])
+        chk.evaluations = 1
+        if (o["a"]["err_idx"] >= 0) != (o["b"]["err_idx"] >= 0) or (o["a"]["err_idx"] < 0 and lex_view(base, o["a"]) != lex_view(var, o["b"])):
+            chk.violation("reproduced", rp, rp.get("signature"))
+        return chk.finish()
     obs = harness("run", [rel.case("a", rp["base"]), rel.case("b", rp["variant"])])
     chk.evaluations = 1
     if rel.result_key(obs["a"]) != rel.result_key(obs["b"]):
